@@ -468,7 +468,7 @@ func splitTop(s string) []string {
 
 var ghostRe = regexp.MustCompile(`^(\$[A-Za-z0-9_]+)\s*\(\s*([A-Za-z\.\*\[\]]+)\s*\)\s*([A-Za-z]+)$`)
 
-var specHeadRe = regexp.MustCompile(`^([A-Za-z_][A-Za-z0-9_]*)\s*\(([^)]*)\)\s*([A-Za-z\[\]\*\.]*)\s*(=\s*(.*))?$`)
+var specHeadRe = regexp.MustCompile(`^([A-Za-z_][A-Za-z0-9_]*)\s*\(([^)]*)\)\s*([A-Za-z0-9\[\]\*\.]*)\s*(=\s*(.*))?$`)
 
 func parseSpecFunc(kw, rest, where string) (*SpecFunc, error) {
 	opaque := false
